@@ -368,6 +368,8 @@ class HistModel(e1_history.Model):
         w.stuck = None
         w.eid = 1000
         w.queued = []     # (eid, holder, index of the op that fired it)
+        w.queued_done = set()
+        w.queued_bad = []
         w.ghost_hist = list(hist)
         del ALL[:]
         for i, op in enumerate(hist):
@@ -376,6 +378,32 @@ class HistModel(e1_history.Model):
         return w
 
     def apply(self, w, op):
+        k = op[0]
+        comps = w.comps
+        # an event fired earlier without a flush sits in the queue of the ghost root of its holder; the operation that flushes
+        # that root dispatches it - to exactly the handlers in force then (tree before the detach for unregister, tree after
+        # the registration for register)
+        g = w.ghost
+        pend_expect = []
+        for (eid, holder, idx, _ev) in [q for q in w.queued if q[0] not in w.queued_done]:
+            loc = g.root(holder)
+            if k == 'probe' and g.root(op[1]) == loc:
+                pend_expect.append((eid, holder, g.expected(loc)))
+            elif k == 'unreg' and g.root(op[1]) == loc:
+                pend_expect.append((eid, holder, g.expected(loc)))
+            elif k == 'reg' and loc in (g.root(op[1]), g.root(op[2])):
+                g2 = Ghost(self.n)
+                g2.parent, g2.dyn = list(g.parent), list(g.dyn)
+                g2.apply(op)
+                pend_expect.append((eid, holder, g2.expected(op[2])))
+        self._apply(w, op)
+        for eid, holder, exp in pend_expect:
+            w.queued_done.add(eid)
+            got = sorted((lab, hid) for (i, lab, hid) in ALL if i == eid)
+            if got != exp:
+                w.queued_bad.append((eid, holder, got, exp, op))
+
+    def _apply(self, w, op):
         k = op[0]
         comps = w.comps
         if k != 'probe':
@@ -486,6 +514,11 @@ class HistModel(e1_history.Model):
                         busy = True
                 if not busy:
                     break
+            for eid, holder, got, exp, op in w.queued_bad:
+                missing = [x for x in exp if x not in got]
+                st.fail('history:queued-event-' + ('missing-handler' if missing else 'extra-or-duplicate'),
+                        'event fired on c%d without a flush, dispatched by %r: delivered %r, handlers in force then %r  [history %r]'
+                        % (holder, op, got, exp, list(hist)), {'part': 'history', 'n': self.n, 'hist': [list(o) for o in hist], 'probe': holder})
             for eid, holder, idx, _ev in w.queued:
                 got = [(lab, hid) for (i, lab, hid) in ALL if i == eid]
                 if len(got) != len(set(got)):
